@@ -577,7 +577,18 @@ class Eval:
                     self.pat_bind(pat, val, env)
             elif k == "stmt" or k == "macro":
                 st = toks(n["text"])
-                touched = [v for v in self.mutable if v in st and v in env]
+                def mutated(v):
+                    for i, x in enumerate(st):
+                        if x != v:
+                            continue
+                        nxt = st[i + 1] if i + 1 < len(st) else ""
+                        prv = st[i - 1] if i > 0 else ""
+                        if prv in (".", "::"):
+                            continue
+                        if nxt in (".", "[", "=", "+=", "-=", "|=", "&=", "^=") or prv == "mut" or nxt in ("+", "-", "|", "&", "^") and i + 2 < len(st) and st[i + 2] == "=":
+                            return True
+                    return False
+                touched = [v for v in self.mutable if v in env and mutated(v)]
                 if touched:
                     for v in touched:
                         self.nlet += 1
